@@ -277,6 +277,10 @@ func compare(ops []map[string]any, impl, model []Line, metaReq map[string]bool) 
 	cm := canonLinesFor(*flagProperty, model, metaReq, lazy, dropAt)
 	for i := range ci {
 		a := jsonKey(map[string]any{"out": ci[i].Out, "closed": nonNil(ci[i].Closed), "panic": ci[i].Panic, "refused": ci[i].Note == "refused", "sizes": sizesOrNil(ci[i].Sizes)})
+		if strings.HasPrefix(ci[i].Note, "aliased") {
+			// in-process recipients were handed shared containers (C12): never equal to the model's answer
+			a = ci[i].Note + " " + a
+		}
 		var b string
 		if i < len(cm) {
 			if strings.HasPrefix(cm[i].Note, "{") {
